@@ -80,7 +80,9 @@ def read_state(it):
     usage = [it.mem.load(Ptr(ub[0], ub[1] + 4 * k), 4) for k in range(8)]
     return r, f, e, a, usage
 
+EXTRA_BIND = None
 def bind_common(it):
+    if EXTRA_BIND: EXTRA_BIND(it)
     it.hooks['randomx_reciprocal'] = lambda s, a: V.RCP(bv(a[0], 32))
     it.hooks['__assert_fail'] = lambda s, a: (_ for _ in ()).throw(Exception('assert_fail reached'))
 
